@@ -207,6 +207,20 @@ class Verifier:
                     for k in ("nondet_int", "nondet_bool"):
                         if k in m.ns and m is not nd:
                             m.ns[k] = nd.ns[k]
+        sq = self.interp.modules.get("spec.seq")
+        if sq is not None:
+            from .objs import IGen
+
+            def at_state(gen, v, current):
+                if not isinstance(gen, IGen):
+                    raise TypeError("not a generator")
+                gen.env.vars["val"] = v          # havoc of the suspended frame: last drawn value is v
+                return gen
+
+            def gen_args(gen):
+                return (gen.env.vars["stop"], gen.env.vars["start"])
+            sq.ns["at_state"] = N("spec.seq.at_state", at_state)
+            sq.ns["gen_args"] = N("spec.seq.gen_args", gen_args)
         self.base_ns.update({
             "implies": N("implies", implies), "stream_of": N("stream_of", stream_of),
             "nondet_int": N("nondet_int", nondet_int), "nondet_bool": N("nondet_bool", nondet_bool),
@@ -250,7 +264,7 @@ class Verifier:
         except PyRaise:
             return NotImplemented
         for cand in cands:
-            if cand.ref is None:
+            if cand.ref is None or not cand.callsite:
                 continue
             ok = True
             if cand.applies is not None:
@@ -576,8 +590,9 @@ class Verifier:
         for stmt in getattr(contract, "setup", ()):
             try:
                 self.exec_stmts(stmt, vars_)
-            except PyRaise:
+            except PyRaise as e:
                 # the setup (building the input from the reference) failed: this input is outside the precondition
+                self.cur_result.notes.add(f"setup raised {e.exc.cls.name}: {str(e.exc.attrs.get('args'))[:100]}")
                 raise PathAbort()
         return vars_
 
@@ -600,7 +615,7 @@ class Verifier:
         ref_vars = clone_value(vars_) if contract.ref else None
         self.entered = False
         real = self._run_outcome(contract.call, vars_)
-        if not self.entered:
+        if not self.entered and not getattr(contract, "no_entry_check", False):
             raise OutOfReach(f"call expression never entered {contract.func}")
         self.cur_result.covers += 1
         # exception freedom
@@ -620,6 +635,8 @@ class Verifier:
                 t = ops.truth_term(self.eval_expr(e, env_extra))
                 self.check(f"ensures#{i}", t)
         else:
+            if not contract.ref and contract.raises_only is None:
+                self.check(f"unexpected-exception[{real[1].cls.name}: {str(real[1].attrs.get('args'))[:80]}]", False)
             env_extra = dict(vars_, exc=real[1])
             for i, e in enumerate(getattr(contract, "ensures_exc", ())):
                 t = ops.truth_term(self.eval_expr(e, env_extra))
